@@ -265,6 +265,14 @@ def compact (cTest : Which) (e : ClassInfo) (r : Req) (o : Obj) : Except Compact
           | .ok res => .ok (.block res)
       else .ok .plain
 
+/-! ## The circuit path on a circuit of several gates
+
+`QubitCircuit.propagators(expand=False)` is `[self._get_gate_unitary(g) for g in self.gates]`; for a library gate
+`_get_gate_unitary` is the rule regenerated into `Gen.G.circuitGateUnitary` — the gate's OWN `get_compact_qobj()`, with no
+state of the circuit read or written (checked by the translator). -/
+def propagatorsCompact {α β : Type} (rule : String) (own : α → β) (gates : List α) : Option (List β) :=
+  if rule = "gate.get_compact_qobj()" then some (gates.map own) else none
+
 /-! ## The control value a matrix function is built on
 
 A class whose `get_compact_qobj` does not read `control_value` returns the matrix of a gate function; for the controlled
